@@ -427,6 +427,8 @@ class Search:
             self.hist["with_history_ops"] = self.hist.get("with_history_ops", 0) + 1
         if cfg.get("pw_index") is not None:
             self.hist["pwdone|%d" % cfg["pw_index"]] = 1       # this factor assignment ran to the end
+        if cfg.get("tw_index") is not None:
+            self.hist["triples_completed"] = self.hist.get("triples_completed", 0) + 1
         va, vr = R.persisted_view(a), R.persisted_view(r)
         d2 = R.first_difference(va, vr)
         if d2 is None:
@@ -473,6 +475,8 @@ def _twin_one(self, cfg, path, k=9):
         return
     if cfg.get("pw_index") is not None:
         self.hist["pwdone|%d" % cfg["pw_index"]] = 1
+    if cfg.get("tw_index") is not None:
+        self.hist["triples_completed"] = self.hist.get("triples_completed", 0) + 1
     v1, v2 = R.persisted_view(t1), R.persisted_view(t2)
     d = R.first_difference(self.semantic(v1), self.semantic(v2))
     if d is None:
@@ -1861,7 +1865,35 @@ def run(c):
     hc = pw + hc
     first = ("archive", "syncsave")
     cases = [x for x in hc if x[3] in first] + cases[:nlat] + [x for x in hc if x[3] not in first] + cases[nlat:]
-    cases = [x for x in cases if x[0].get("pw_index") is not None] + dimension_first([x for x in cases if x[0].get("pw_index") is None])
+    triples = []
+    if c.thorough:
+        # 3-way coverage of the factors closest to the mechanism: integrator x restore path x event right before the save
+        rng3 = SplitMix(c.seed * 31337 + 5)
+        tot3 = 0
+        for iv in FACTORS["integ"]:
+            for pv in FACTORS["path"]:
+                for ev in FACTORS["event"]:
+                    part = {"integ": iv, "path": pv, "event": ev}
+                    if pair_excluded("integ", iv, "path", pv) or pair_excluded("integ", iv, "event", ev) or pair_excluded("event", ev, "path", pv) \
+                            or not completable(FACTORS, part):
+                        continue
+                    tot3 += 1
+                    cand = dict(part)
+                    for f in FACTORS:
+                        if f in cand:
+                            continue
+                        vals = list(FACTORS[f]); rng3.shuffle(vals)
+                        for v in vals:
+                            if all(not pair_excluded(f, v, g, cand[g]) for g in cand) and not triple_excluded(dict(cand, **{f: v})) \
+                                    and completable(FACTORS, dict(cand, **{f: v})):
+                                cand[f] = v
+                                break
+                    if len(cand) == len(FACTORS):
+                        cfg3, path3, k3, kind3 = factor_cfg(OrderedDict((f, cand[f]) for f in FACTORS))
+                        cfg3["tw_index"] = len(triples)
+                        triples.append((cfg3, path3, k3, kind3))
+        c.cov["triples"] = {"factors": ["integ", "path", "event"], "total": tot3, "generated": len(triples)}
+    cases = [x for x in cases if x[0].get("pw_index") is not None] + triples + dimension_first([x for x in cases if x[0].get("pw_index") is None])
     run_cases(c, S, cases)
     finish_pairs(c, S, pw_arr, pw_tot, pw_exc, lambda more: run_cases(c, S, more, budget=20))
     c.log("lattice done (%d cases)" % len(cases))
